@@ -281,6 +281,11 @@ func (w *Workspace) BuildPackages(patterns ...string) (map[string]string, error)
 				continue
 			}
 			dir := filepath.Dir(m[1])
+			if filepath.IsAbs(dir) { // (the go command reports some import errors with absolute file names)
+				if rel, e := filepath.Rel(w.ModuleDir(), dir); e == nil {
+					dir = rel
+				}
+			}
 			pkg := "vw/" + filepath.ToSlash(dir)
 			if _, seen := fails[pkg]; seen {
 				continue
@@ -312,7 +317,7 @@ func (w *Workspace) BuildPackages(patterns ...string) (map[string]string, error)
 	return fails, nil
 }
 
-var unresolvedRe = regexp.MustCompile(`^([^\s:]+\.go):\d+:\d+: (?:cannot find module providing package|no required module provides package|package \S+ is not in (?:std|GOROOT))`)
+var unresolvedRe = regexp.MustCompile(`^([^\s:]+\.go):\d+:\d+: (?:cannot find module providing package|no required module provides package|package \S+ is not in (?:std|GOROOT)|invalid import path|malformed import path)`)
 
 // BuildDriver links the driver binary importing the given case packages.
 func (w *Workspace) BuildDriver(name string, imports []string, race bool) (string, error) {
